@@ -66,11 +66,13 @@ class BaseMQTTGateway(Gateway):
 
         Return a mysensors command string.
         """
-        topic_levels = topic.split("/")
-        topic_levels = not_prefix = topic_levels[-5:]
-        prefix_end_idx = topic.find("/".join(not_prefix)) - 1
-        prefix = topic[:prefix_end_idx]
-        if prefix != self.tasks.transport.in_prefix:
+        # The topic should be the prefix followed by exactly five levels.
+        # prefix/node/child/type/ack/subtype
+        prefix = f"{self.tasks.transport.in_prefix}/"
+        if not topic.startswith(prefix):
+            return None
+        topic_levels = topic[len(prefix) :].split("/")
+        if len(topic_levels) != 5:
             return None
         if qos and qos > 0:
             ack = "1"
